@@ -15,3 +15,8 @@ pub fn cut_layouts(_tier: Tier) -> Vec<(String, Vec<u8>)> {
 pub fn fault_files(_tier: Tier) -> Vec<(String, Vec<u8>)> {
     vec![]
 }
+
+/// Extra files for the reader state-graph search of C15.
+pub fn c15_files(_tier: Tier) -> Vec<(String, Vec<u8>)> {
+    vec![]
+}
